@@ -1559,6 +1559,15 @@ example : countEntries false false exNames 65 (encodeAll [exR1, exR2, exR3]) = 3
 example : validHeader [64, 72] [([99, 104, 114, 49], 1000), ([99, 104, 114, 88], 500)] = true := by decide
 example : Stops [1, 0, 0] ∧ ¬ Stops [0, 0, 0, 0, 9] := by unfold Stops; decide
 
+/-- after a selection has been compacted (`_make_contigous`, e.g. by writing it), the records sit at the NEW boundaries;
+field offsets remembered from before the compaction (the shipped code lru-cached `_read_name_start`, `_cigar_start`, … per
+extractor) point into the wrong bytes. Here: record 3 selected alone starts at 0 after compaction, its old start was 106.
+Fixed in /repo by computing the offsets on every access; the model never caches (`decodeAt` takes the current start). -/
+theorem staleOffsets_unsound :
+    let compacted := selectBytes (addNewline (encodeAll [exR1, exR2, exR3])) [2]
+    decodeAt false false exNames compacted 0 = view exNames exR3 ∧
+    (decodeAt false false exNames compacted 106).name ≠ exR3.name := by decide +kernel
+
 /-- the chunk-size bound of the property is needed: with a chunk size below the largest record the
 reader (as modelled, and as the code behaves) delivers nothing -/
 theorem chunk_bound_needed :
